@@ -42,3 +42,26 @@ func (set *threadSafeSet) RUnlock() {
 		h(set, "RUnlock", 1)
 	}
 }
+
+// A conditional acquisition that is granted is reported as the acquisition it
+// is (phase 1 only: it never blocks); a refused one is not an event.
+
+func (set *threadSafeSet) TryLock() bool {
+	ok := set.RWMutex.TryLock()
+	if ok {
+		if h := VerifLockHook; h != nil {
+			h(set, "Lock", 1)
+		}
+	}
+	return ok
+}
+
+func (set *threadSafeSet) TryRLock() bool {
+	ok := set.RWMutex.TryRLock()
+	if ok {
+		if h := VerifLockHook; h != nil {
+			h(set, "RLock", 1)
+		}
+	}
+	return ok
+}
